@@ -602,6 +602,11 @@ def main(ctx):
                         if rec:
                             rec.write(json.dumps({"key": "unpositioned:" + k2[2].strip(), "fam": c["fam"], "src": c["src"][:300], "msg": r.get("msg"), "cls": r.get("cls")}) + "\n")
                         ctx.violation(k2, {"case": c["src"][:2000], "exception": r})
+            # (e) ... and a syntax error must not surface only after part of the malformed program has run
+            if c["fam"] != "api" and malformed.get(c["id"]) == "SyntaxError" and o == "jserr" and r.get("steps", 0) > 0 and r.get("name") == "SyntaxError":
+                k3 = ("syntax-error-raised-after-the-program-began-to-run", r.get("cls"), re.sub(r"[0-9'\"/].*", "", r.get("msg") or "")[:40])
+                if not ctx.known_site("late-syntax-error:" + k3[2].strip()):
+                    ctx.violation(k3, {"case": c["src"][:2000], "exception": r, "steps_before_the_error": r.get("steps")})
         # ---- position monitors
         pos_checked = 0
         variants = []
